@@ -36,7 +36,8 @@ CLAUSE_PROP = [
     ("pair.", None),
 ]
 # clauses that several properties own (checked by each of them)
-ALSO = {"mk.guard-leaf": {"C03", "C06"}}
+ALSO = {"mk.guard-leaf": {"C03", "C06"}, "grow.not-fresh": {"C04", "C06"}, "grow.init-not-fresh": {"C04", "C06"},
+        "sweep.new-cell-not-fresh": {"C04", "C08"}, "seq.new-cell-not-fresh": {"C04", "C12"}}
 
 
 def clause_props(clause):
@@ -95,8 +96,8 @@ class Check:
             f.write(extra)
         return p
 
-    def mc(self, module, cfgpath, label, simulate=None, workers=None, timeout=3000, coverage=False, count=True, heap="8g"):
-        extra = ["-coverage", "1"] if coverage else []
+    def mc(self, module, cfgpath, label, simulate=None, workers=None, timeout=3000, coverage=False, count=True, heap="8g", more=()):
+        extra = (["-coverage", "1"] if coverage else []) + list(more)
         r = C.run_tlc(module, cfgpath, self.wd, workers=workers or min(C.NCPU, 12), timeout=timeout, simulate=simulate, extra=extra, heap=heap)
         if count:
             self.states += r.distinct
@@ -136,7 +137,7 @@ class Check:
                 if nontrivial is None or nontrivial(tr):
                     self.nontrivial.add(trace_key(tr))
                 continue
-            owners = clause_props(clause) if own is None else ({self.prop} if any(clause.startswith(o) for o in own) else clause_props(clause) - {self.prop})
+            owners = clause_props(clause) if own is None else ({self.prop} if (any(clause.startswith(o) for o in own) or self.prop in ALSO.get(clause, ())) else clause_props(clause) - {self.prop})
             if clause in ("protocol", "unknown-event", "replay.script"):
                 raise C.Machinery("trace %s rejected with machinery clause %s at event %d" % (tr["id"], clause, line))
             if self.prop in owners:
